@@ -1652,6 +1652,27 @@ func (w *recWorld) describeAlien(st *recSessTrack, data []byte) string {
 		}
 		return s
 	}
+	// where does the content after the common prefix come from?
+	if len(data) > bestN+24 {
+		probe := data[bestN+4 : bestN+20]
+		for _, g := range st.trk.frames {
+			if i := bytes.Index(g.Data, probe); i >= 0 {
+				s += fmt.Sprintf("; its bytes %d.. are bytes %d.. of sent frame #%d (%d bytes, packets %d..%d, key=%v)", bestN+4, i, g.Idx, len(g.Data), g.First, g.Last, g.Key)
+				// and the end of the block?
+				tail := data[len(data)-16:]
+				for _, h := range st.trk.frames {
+					if j := bytes.Index(h.Data, tail); j >= 0 {
+						s += fmt.Sprintf(", its last 16 bytes end at byte %d of sent frame #%d (%d bytes)", j+16, h.Idx, len(h.Data))
+						if st.trk.sp.Codec == "h264" && h.Idx > g.Idx && j+16 == len(h.Data) {
+							s += fmt.Sprintf("; H.264: the block joins the fragments of sent frames #%d and #%d (a fragmented NAL unit whose last fragment was not handed to the depacketiser stays in its reassembly buffer and is prefixed to the next one: the sample builder's count is one packet short for a frame that straddles the end of its ring)", g.Idx, h.Idx)
+						}
+						break
+					}
+				}
+				break
+			}
+		}
+	}
 	if st.trk.sp.Codec == "h264" {
 		// a block that is an inner part of an access unit
 		for _, g := range st.trk.frames {
